@@ -3,7 +3,7 @@
 // Every catalogue op reachable for a frame's shape is executed on View{p,n}
 // for every truncation n (guard page right after byte n-1, canaries before p).
 #pragma once
-#include "common.hpp"
+#include "c04.hpp"
 
 namespace wire
 {
@@ -121,6 +121,7 @@ struct OpEnumerator
             add(base, T_GROUP, G_FILL_HEADER, (int)gi, hend, gl + ".fill_group_header", cnt);
             add(base, T_GROUP, G_SIZE_BYTES, (int)gi, g.end, gl + ".size_bytes");
             add(base, T_GROUP, G_ITER, (int)gi, g.end, gl + ".iterate");
+            if(gs.flat) add(base, T_GROUP, G_ITER_INDEXED, (int)gi, g.end, gl + ".iterator arithmetic");
             if(cnt)
             {
                 add(base, T_GROUP, G_FRONT, (int)gi, g.end, gl + ".front");
@@ -281,15 +282,52 @@ inline Result exec_c10(const Plan& plan)
     Frame f = make_frame(fs);
     C10 c{fs.drv, &res, &fp};
     for(std::size_t i = 0; i < sim::kCanary; i++) c.canary[i] = u8(0xC0 + i);
-    {
-        std::istringstream ks(plan.get("known"));
-        std::string t;
-        while(std::getline(ks, t, ',')) c.known.insert(t);
-    }
+    c.known = known_set(plan);
     c.where = std::string("schema ") + sh.name + " msg " + std::to_string(fs.msg) + " tree " + std::to_string(fs.tree_seed);
     std::vector<OpSpec> ops;
     OpEnumerator en{sh, f, ops};
     en.all();
+    // cursor traversals through every wrapper kind (legal scripts, sanitised by the cursor model)
+    std::vector<std::vector<Decision>> scripts;
+    {
+        const u64 wseed = (u64)plan.geti("walks", 1);
+        for(int v = 0; v < 5; v++)
+        {
+            sim::Rng r(wseed * 131 + (u64)v);
+            std::vector<Decision> raw;
+            for(int i = 0; i < 400; i++)
+            {
+                Decision d;
+                switch(v)
+                {
+                case 0: d.wrapper = W_INIT; break;
+                case 1: d.wrapper = W_SKIP; break;
+                case 2: d.wrapper = i % 2 ? W_PLAIN : W_DONT_MOVE; break;
+                case 3: d.wrapper = i % 2 ? W_INIT : W_INIT_DONT_MOVE; break;
+                default: d.wrapper = (int)r.below(5); break;
+                }
+                d.split = v == 4 ? (int)r.below(4) - 1 : -1;
+                d.write = v == 4 && r.chance(1, 4);
+                raw.push_back(d);
+            }
+            CursorModel cm{sh, f, raw, false};
+            cm.run();
+            scripts.push_back(cm.script);
+        }
+        static const char* names[] = {"cursor walk (init)", "cursor walk (skip)", "cursor walk (dont_move+plain)", "cursor walk (init_dont_move+init)", "cursor walk (seeded mix, subranges, setters)"};
+        for(std::size_t v = 0; v < scripts.size(); v++)
+        {
+            OpSpec s;
+            s.rq.msg = f.msg;
+            s.rq.target = T_MESSAGE;
+            s.rq.sub = M_CURSOR_WALK;
+            s.rq.script = &scripts[v];
+            s.rq.arg = 2; // no size_bytes(m,c) at the end
+            s.extent = f.bytes.size();
+            s.label = names[v];
+            ops.push_back(s);
+        }
+    }
     std::vector<u8> bytes = f.bytes;
     const u64 N = bytes.size();
     for(const Op& op : plan.ops)
@@ -346,6 +384,7 @@ inline Plan gen_c10_wire(u64 seed, const std::string& tier)
     p.set("schema", sh.name);
     p.seti("msg", (long long)wl.below(sh.messages.size()));
     p.seti("tree", (long long)(wl.next() >> 20));
+    p.seti("walks", (long long)(wl.next() >> 40));
     if(fl.chance(1, 4)) p.seti("extend", 1);
     p.set("mode", "enumerate-truncations-x-op-catalogue");
     Op o;
